@@ -55,6 +55,19 @@ def make_specs(ctx: Ctx, n):
             s2 = mk_spec(len(specs), m2, ["c06"], plan_for(True), label=label + "; same functions, parameters updated in place")
             s2["session_key"] = f"pair{i}"
             specs.append(s2)
+    # the period enters the model ONLY through an auxiliary function (inc(a, k, _period) feeding next_w), three or more periods:
+    # no signature of utility, constraints or transitions mentions _period, yet every period is a different problem
+    r2 = ctx.rng("period-through-auxiliary")
+    for _ in range(max(4, n // 12)):
+        m = gen.rand_model(r2, {"p_period_util": 0.0, "p_period_aux": 1.0, "p_period_next": 0.0, "p_per_filter": 0.0, "p_w": 1.0, "p_a": 1.0,
+                                "p_h_stoch": 0.0, "p_e": 0.0, "p_reduction_aux": 0.0, "T": [3, 4], "max_cells": 800})
+        na = r2.choice([2, 4])
+        init = qinit(gen.rand_initial_states(r2, m, na, on_grid=True))
+        seed = r2.randrange(10**6)
+        plan = [{"op": "simulate", "target": "simulate", "init": init, "seed": seed, "vsrc": "given", "needV": True},
+                {"op": "simulate", "target": "solve_and_simulate", "init": init, "seed": seed, "vsrc": "own", "needV": True},
+                {"op": "rel-sim", "a": 1, "b": 2, "map": list(range(na)), "scope": "all", "what": "ss-equals-solve-then-simulate"}]
+        specs.append(mk_spec(len(specs), m, ["c06"], plan, label="period enters only through an auxiliary function, T >= 3"))
     return specs
 
 
